@@ -151,15 +151,19 @@ let hist_case (fields : (string * string) list) (obs : string) pf df =
           (abc, k, List.map (fun r -> Array.to_list (Array.map f32_of_int r)) bits)
       | _ -> failwith "ms") (String.split_on_char '|' (get "ms"))) in
   let qs = Array.of_list (List.mapi (fun j qd ->
-      match Str.bounded_split (Str.regexp_string ":") qd 3 with
-      | [abc; wrap; letters] ->
+      match String.split_on_char ':' qd with
+      | abc :: wrap :: letters :: src ->
           let alpha = alpha_of abc in
           let letters = if letters = "-" then "" else letters in
           let s = List.init (String.length letters) (fun i -> nat_of_int (String.index alpha letters.[i])) in
           let q = parse_sq (oget (Printf.sprintf "q%d" j)) in
           let wild = nat_of_int (String.length alpha - 1) in
-          let ok = x_striped_b cn wild s q in
-          if not ok then df (Printf.sprintf "striped-hypothesis q%d" j);
+          (* a sequence built by StripedSequence::new (4th field): the hypothesis is Padded, decided by the extracted
+             padded_b, and the logical sequence read off the matrix must be the input *)
+          let ok =
+            if src = [] then x_striped_b cn wild s q
+            else x_padded_b cn wild q && x_logical_seq cn wild q = s in
+          if not ok then df (Printf.sprintf "%s-hypothesis q%d" (if src = [] then "striped" else "padded") j);
           if int_of_nat q.sq_wrap <> int_of_string wrap then df (Printf.sprintf "wrap of q%d" j);
           (abc, s, q, String.length letters, ok)
       | _ -> failwith "qs") (String.split_on_char '|' (get "qs"))) in
